@@ -124,6 +124,18 @@ impl GoalSpec {
     }
 }
 impl Problem {
+    /// Move the goal region onto the start state (same radius): with an invalid start this is
+    /// the "start already satisfies the goal, but is rejected by the checker" corner, which must
+    /// still be reported as an invalid start.
+    pub fn put_goal_on_start(&mut self) {
+        self.goal.centre = self.start.clone();
+        if let GoalMode::List(l) = &mut self.goal.mode {
+            for g in l.iter_mut() {
+                *g = self.start.clone();
+            }
+        }
+        self.tags.push("goal-contains-the-start".into());
+    }
     pub fn to_json(&self) -> Value {
         json!({"spec":self.spec.to_json(),"world":self.world.to_json(),"start":fjs(&self.start),
                "goal":self.goal.to_json(),"infeasible":self.infeasible,"tags":self.tags,
